@@ -4,7 +4,7 @@
    (see lib/c07.py and DESIGN.md: the level claimed for C07 is partial). *)
 
 From Coq Require Import Strings.String.
-From SwiftMT Require Import Base.Bytes Base.StrOps Legacy.Block4Map Legacy.Total Fmt.Model Fmt.Facts Headers.Hdr12 Headers.Hdr12Facts Engine.Layout Engine.Tokens Engine.Extract Engine.Total Engine.TotalInstance Engine.Instance.
+From SwiftMT Require Import Base.Bytes Base.StrOps Legacy.Block4Map Legacy.Total Fmt.Model Fmt.Facts Headers.Hdr12 Headers.Hdr12Facts Engine.Layout Engine.Tokens Engine.Extract Engine.Total Engine.TotalInstance Engine.Defs.
 
 Local Open Scope string_scope.
 Local Open Scope list_scope.
